@@ -23,6 +23,10 @@ Observed and compared:
  (e) fit-range pairs selecting regions of different extent, or exceeding the target (also when the
      result range exceeds the detector alike, so that both regions are clipped to one extent), are
      rejected before any probe call; equal-extent pairs (also shifted) are accepted.
+
+Input classes beyond the set-up itself: the storage type of the target / weight files (float64, float32, integer
+frames) and the way the set-up was declared (at construction, or re-declared through the public properties of the
+Calibration object before the run; the oracle always uses the values last declared when the run starts).
 """
 from __future__ import annotations
 
@@ -45,7 +49,11 @@ RULE = ("random calibration set-ups: 1-3 target files (npy/fits/txt, datacubes n
         "components (scalar, vector, logarithmic); 'direct' cases evaluate problem.fitness on generated decision "
         "vectors, 'calibration' cases run pyxel.run_mode (sade / sga / nlopt with five derivative-free solvers and all "
         "selection x replacement pairs, 1-2 islands, 2-6 evolutions); deterministic or seeded stochastic pipeline, "
-        "with or without a declared pipeline seed; every case but the "
+        "with or without a declared pipeline seed; target files stored as float64 / float32 / integer frames (uint8 ... "
+        "int64), weight maps alike, weight vectors of floats or integers; the set-up declared at once when the "
+        "Calibration object is created, or created with other values and (45 %) partly re-declared through the public "
+        "properties before the run (fit ranges, weights, weight / target files, input arguments, fitness function, result "
+        "type, pipeline seed, number of evolutions); every case but the "
         "'absent' class is non-trivial; distinct = distinct case specifications")
 ASSUMPTIONS = [
     "the probe stands for an arbitrary deterministic pipeline: fitness bookkeeping does not depend on what the model does",
@@ -55,6 +63,8 @@ ASSUMPTIONS = [
     "fitness sums are compared with a relative tolerance of 1e-12; node contents with 1e-12 (targets: exactly)",
     "re-simulating = running the same pipeline with the declared pipeline_seed (exposure mode); a stochastic pipeline "
     "is only generated together with a declared seed (without one nothing is reproducible and nothing could be judged)",
+    "'declared' = the value last given for an option when the run starts: a value assigned through the public property "
+    "of the Calibration object after its creation replaces the one given at construction",
     "a calibration that pygmo itself aborts under an NLopt solver (next start point one ulp outside the box) is counted, "
     "not judged",
 ]
@@ -68,6 +78,8 @@ REQUIRED_COUNTERS = [
     "result_type_signal_compared", "result_type_pixel_compared",
     "stochastic_pipeline_2_or_more_targets_compared", "noise_references_resimulated",
     "algo_sade_finished", "algo_sga_finished", "algo_nlopt_finished", "monotone_pairs_checked_nlopt",
+    "integer_targets_fractional_weights_compared", "redeclared_target_fit_range_champion_compared",
+    "redeclared_result_fit_range_champion_compared",
 ]
 TIMEOUT = {"quick": 900, "thorough": 5400}
 LEVEL_TEXT = ("Exploration by runtime monitoring: generated calibration set-ups are evaluated by the real fitting problem "
@@ -94,6 +106,8 @@ INVALID_CLASSES = ("unequal", "oob_target", "oob_both", "oob_result", "time_uneq
 # NLopt solvers that need no gradient and keep to the box (the others are refused by pygmo for this problem or
 # leave the box: property C10)
 NLOPT_SOLVERS = ("neldermead", "sbplx", "bobyqa", "newuoa_bound", "praxis")
+# integer storage types of frames (all of them can be written as npy, FITS and text)
+INT_DTYPES = ("uint8", "uint16", "uint16", "int16", "int32", "uint32", "int64")
 
 LOG: list = []
 _LOCK = threading.Lock()
@@ -453,7 +467,95 @@ def gen_case(rng, kind: str, g: int) -> dict:
     # ---- stochastic pipeline: the probe draws from the generator that the declared pipeline seed controls
     case["noise"] = rng.choice([0.5, 2.0, 6.0]) if rng.random() < 0.35 else 0.0
     case["pseed"] = rng.randint(0, 2 ** 31 - 1) if (case["noise"] or rng.random() < 0.15) else None
+    gen_storage(rng, case)
+    gen_redeclaration(rng, case)
     return case
+
+
+def gen_storage(rng, case: dict) -> None:
+    """Storage type of the target / weight files and number type of the weight vector: detector frames are
+    usually stored as integers (uint16 ...), masks and weight maps as small integers or single precision."""
+    u = rng.random()
+    case["tkind"] = "float64" if u < 0.45 else ("float32" if u < 0.6 else "integer")
+    if case["tkind"] == "integer":
+        case["tdtypes"] = [rng.choice(INT_DTYPES) for _ in range(case["ntar"])]
+        case["nan_cells"] = 0
+    else:
+        case["tdtypes"] = [case["tkind"]] * case["ntar"]
+    u = rng.random()
+    case["wdtype"] = "float64" if u < 0.6 else ("float32" if u < 0.75 else rng.choice(INT_DTYPES))
+    if case["wk"] == "vector" and rng.random() < 0.2:          # a weight vector written with integers
+        case["wvec"] = [rng.randint(1, 4) for _ in range(case["ntar"])]
+        if case["ntar"] > 1 and len(set(case["wvec"])) == 1:
+            case["wvec"][-1] = case["wvec"][0] + 1
+
+
+def gen_redeclaration(rng, case: dict) -> None:
+    """How the set-up was declared: all at once when the Calibration object is created (case['ctor'] empty), or
+    created with other values (a loaded configuration) of which some options are re-declared through the public
+    properties of the object before the run.  case['ctor'] = option -> value at construction (JSON-able),
+    case['redeclared'] = the order in which the declared values are then assigned."""
+    case["ctor"], case["redeclared"] = {}, []
+    if case["cls"] == "absent" or rng.random() >= 0.45:
+        return
+    ctor = {}
+    u = rng.random()
+    if u < 0.75:
+        decoy = None
+        for _ in range(20):
+            decoy = dict(case)
+            gen_ranges(rng, rng.choice(["equal", "shifted", "shifted", "unequal"]), decoy)
+            if decoy["rfr"] != case["rfr"] and decoy["tfr"] != case["tfr"]:
+                break
+        which = "both" if u < 0.45 else ("target" if u < 0.6 else "result")
+        if which in ("both", "target") and decoy["tfr"] != case["tfr"]:
+            ctor["target_fit_range"] = list(decoy["tfr"])
+        if which in ("both", "result") and decoy["rfr"] != case["rfr"]:
+            ctor["result_fit_range"] = list(decoy["rfr"])
+    p_other = 0.2 if ctor else 0.45
+    if case["wk"] == "vector" and rng.random() < p_other:
+        ctor["weights"] = [w + rng.choice([0.5, 1, 2.25]) for w in case["wvec"]]
+    if case["wk"] == "files" and rng.random() < p_other:
+        ctor["weights_from_file"] = True                       # other files (written by materialise)
+    if rng.random() < p_other:
+        ctor["target_data_path"] = True                        # other files of the same shape
+    if rng.random() < p_other:
+        ctor["result_input_arguments"] = [k + rng.choice([-1.25, 0.5, 2.0]) for k in case["ks"]]
+    if rng.random() < p_other:
+        ctor["fitness_function"] = rng.choice([f for f in FUNCS if f != case["fn"]])
+    if rng.random() < p_other:
+        ctor["result_type"] = rng.choice([b for b in BUCKETS if b != case["result_type"]])
+    if case["pseed"] is not None and rng.random() < p_other:
+        ctor["pipeline_seed"] = rng.choice([None, (case["pseed"] + rng.randint(1, 1000)) % (2 ** 31 - 1)])
+    if case["kind"] == "calib" and rng.random() < p_other:
+        ctor["num_evolutions"] = rng.choice([e for e in range(1, 6) if e != case["evolutions"]])
+    order = list(ctor)
+    rng.shuffle(order)
+    case["ctor"], case["redeclared"] = ctor, order
+
+
+def stale_case(case: dict, fields=None) -> dict:
+    """The set-up that the values given at construction describe (for the options `fields`, default all)."""
+    c = dict(case)
+    for f, v in case["ctor"].items():
+        if fields is not None and f not in fields:
+            continue
+        key = {"target_fit_range": "tfr", "result_fit_range": "rfr", "weights": "wvec", "result_input_arguments": "ks",
+               "fitness_function": "fn", "result_type": "result_type", "pipeline_seed": "pseed",
+               "num_evolutions": "evolutions"}.get(f)
+        if key is not None:
+            c[key] = v
+    return c
+
+
+def stale_data(case: dict, data: dict, fields=None) -> dict:
+    d = dict(data)
+    use = [f for f in case["ctor"] if fields is None or f in fields]
+    if "target_data_path" in use:
+        d["targets"], d["tpaths"] = data["ctor_targets"], data["ctor_tpaths"]
+    if "weights_from_file" in use:
+        d["weights"], d["wpaths"] = data["ctor_weights"], data["ctor_wpaths"]
+    return d
 
 
 def gen_algo(rng, dim: int) -> dict:
@@ -509,6 +611,24 @@ def write_array(path: str, arr: np.ndarray, fmt: str, delim: str) -> str:
     return path + ".txt"
 
 
+def draw_frame(nrg, shape, dtype: str, nan_cells: int = 0, weight: bool = False) -> np.ndarray:
+    """A target frame (or a weight map) as it is stored: values of the storage type `dtype`."""
+    dt = np.dtype(dtype)
+    if weight:
+        arr = np.round(nrg.uniform(0.25, 4.0, size=shape), 6)
+        if dt.kind in "iu":
+            arr = np.clip(np.rint(arr), 1, 4)
+        return arr.astype(dt)
+    if dt.kind in "iu":
+        info = np.iinfo(dt)
+        arr = np.rint(nrg.normal(loc=30.0, scale=25.0, size=shape))
+        return np.clip(arr, max(info.min, -1000), min(info.max, 60000)).astype(dt)
+    arr = np.round(nrg.normal(loc=6.0, scale=8.0, size=shape), 6).astype(dt)
+    for _ in range(nan_cells):
+        arr[tuple(nrg.integers(0, s) for s in shape)] = np.nan
+    return arr
+
+
 def materialise(case: dict, tmp: str, tag: str) -> dict:
     """Write target / weight files; return the arrays the oracle uses (what was written)."""
     nrg = np.random.default_rng(case["dseed"])
@@ -516,24 +636,61 @@ def materialise(case: dict, tmp: str, tag: str) -> dict:
     shape = (case["ttimes"], *shape2) if case["multi"] else shape2
     data = {"targets": [], "weights": [], "tpaths": [], "wpaths": []}
     for i in range(case["ntar"]):
-        arr = np.round(nrg.normal(loc=6.0, scale=8.0, size=shape), 6)
-        for _ in range(case["nan_cells"]):
-            arr[tuple(nrg.integers(0, s) for s in shape)] = np.nan
+        arr = draw_frame(nrg, shape, case["tdtypes"][i], case["nan_cells"])
         data["targets"].append(arr)
         data["tpaths"].append(write_array(os.path.join(tmp, f"t_{tag}_{i}"), arr, case["fmt"], case["delim"]))
     if case["wk"] == "files":
         for i in range(case["ntar"]):
-            w = np.round(nrg.uniform(0.25, 4.0, size=shape), 6)
+            w = draw_frame(nrg, shape, case["wdtype"], weight=True)
             data["weights"].append(w)
             data["wpaths"].append(write_array(os.path.join(tmp, f"w_{tag}_{i}"), w, case["wfmt"], case["delim"]))
+    # ---- the files named when the object was created, when they are re-declared afterwards
+    if "target_data_path" in case["ctor"]:
+        data["ctor_targets"], data["ctor_tpaths"] = [], []
+        for i in range(case["ntar"]):
+            arr = draw_frame(nrg, shape, case["tdtypes"][i], case["nan_cells"])
+            data["ctor_targets"].append(arr)
+            data["ctor_tpaths"].append(write_array(os.path.join(tmp, f"td_{tag}_{i}"), arr, case["fmt"], case["delim"]))
+    if "weights_from_file" in case["ctor"]:
+        data["ctor_weights"], data["ctor_wpaths"] = [], []
+        for i in range(case["ntar"]):
+            w = draw_frame(nrg, shape, case["wdtype"], weight=True)
+            data["ctor_weights"].append(w)
+            data["ctor_wpaths"].append(write_array(os.path.join(tmp, f"wd_{tag}_{i}"), w, case["wfmt"], case["delim"]))
     return data
+
+
+def option_values(c: dict, d: dict, as_paths: bool) -> dict:
+    """The options of the Calibration object that the statement speaks about, for the set-up (c, d)."""
+    import pathlib
+
+    from pyxel.observation import ParameterValues
+    from pyxel.pipelines import FitnessFunction
+
+    args = {"free_parameters": c["free"]} if c["fn"] == "reduced_chi_squared" else None
+    conv = (lambda ps: [pathlib.Path(x) for x in ps]) if as_paths else list
+    v = {
+        "target_data_path": conv(d["tpaths"]),
+        "fitness_function": FitnessFunction(func="pyxel.calibration.fitness." + c["fn"], arguments=args),
+        "result_type": c["result_type"],
+        "result_fit_range": tuple(c["rfr"]) if c["rfr"] is not None else None,
+        "target_fit_range": tuple(c["tfr"]) if c["tfr"] is not None else None,
+        "result_input_arguments": [ParameterValues(key=f"pipeline.{c['group']}.cal.arguments.k", values=list(c["ks"]))],
+        "pipeline_seed": c["pseed"],
+    }
+    if c["wk"] == "vector":
+        v["weights"] = list(c["wvec"])
+    elif c["wk"] == "files":
+        v["weights_from_file"] = conv(d["wpaths"])
+    if c["kind"] == "calib":
+        v["num_evolutions"] = c["evolutions"]
+    return v
 
 
 def make_objects(case: dict, data: dict):
     from pyxel.calibration import Algorithm, Calibration
     from pyxel.exposure import Readout
     from pyxel.observation import ParameterValues
-    from pyxel.pipelines import FitnessFunction
 
     group = case["group"]
     pre = f"pipeline.{group}.cal.arguments."
@@ -546,28 +703,24 @@ def make_objects(case: dict, data: dict):
             b = tuple(par["bounds"][0]) if par["shared"] else [tuple(x) for x in par["bounds"]]
             params.append(ParameterValues(key=pre + "q", values=["_", "_"], logarithmic=par["log"], boundaries=b))
     algo = case.get("algo") or {"type": "sade", "generations": 1, "population_size": 7}
-    args = {"free_parameters": case["free"]} if case["fn"] == "reduced_chi_squared" else None
-    kwargs = {}
-    if case["wk"] == "vector":
-        kwargs["weights"] = list(case["wvec"])
-    elif case["wk"] == "files":
-        kwargs["weights_from_file"] = list(data["wpaths"])
+    kwargs = option_values(case, data, as_paths=False)
+    if case["ctor"]:                                           # created with other values ...
+        other = option_values(stale_case(case), stale_data(case, data), as_paths=False)
+        for f in case["ctor"]:
+            kwargs[f] = other[f]
     if case["kind"] == "calib":
-        kwargs.update(num_islands=case["islands"], num_evolutions=case["evolutions"], pygmo_seed=case["pygmo_seed"],
+        kwargs.update(num_islands=case["islands"], pygmo_seed=case["pygmo_seed"],
                       num_best_decisions=case["best"], topology=case["topology"])
     cal = Calibration(
-        target_data_path=list(data["tpaths"]),
-        fitness_function=FitnessFunction(func="pyxel.calibration.fitness." + case["fn"], arguments=args),
         algorithm=Algorithm(**algo),
         parameters=params,
         readout=Readout(times=list(case["times"])) if case["multi"] else None,
-        result_type=case["result_type"],
-        result_fit_range=tuple(case["rfr"]) if case["rfr"] is not None else None,
-        target_fit_range=tuple(case["tfr"]) if case["tfr"] is not None else None,
-        result_input_arguments=[ParameterValues(key=pre + "k", values=list(case["ks"]))],
-        pipeline_seed=case["pseed"],
         **kwargs,
     )
+    if case["redeclared"]:                                     # ... and re-declared through the public properties
+        declared = option_values(case, data, as_paths=True)
+        for f in case["redeclared"]:
+            setattr(cal, f, declared[f])
     detector, pipeline = make_detector_pipeline(case)
     return cal, detector, pipeline
 
@@ -707,6 +860,15 @@ def count_classes(rec, case: dict, what: str) -> None:
             rec.count("stochastic_pipeline_2_or_more_targets_compared")
     elif case["pseed"] is not None:
         rec.count("seeded_deterministic_pipeline_compared")
+    rec.observe("target_storage", f"{case['fmt']}:{'+'.join(sorted(set(case['tdtypes'])))}")
+    if case["tkind"] == "integer":
+        rec.count("integer_targets_compared")
+        if case["wk"] == "vector" and any(float(w) != int(w) for w in case["wvec"]):
+            rec.count("integer_targets_fractional_weights_compared")
+    if case["wk"] == "files":
+        rec.observe("weight_storage", f"{case['wfmt']}:{case['wdtype']}")
+    for f in case["ctor"]:
+        rec.count(f"redeclared_{f}_{what}_compared")
 
 
 def fitness_mismatch(rec, case: dict, data: dict, got: float, want: float, p, q, what: str, extra: str, index) -> None:
@@ -720,15 +882,27 @@ def fitness_mismatch(rec, case: dict, data: dict, got: float, want: float, p, q,
         if close(got, unweighted) and not close(want, unweighted):
             mech = ("C11:weights:multi-readout:ignored" if case["multi"]
                     else f"C11:weights:{ro_name(case)}:ignored:{what}")
+    # options re-declared before the run: is it the figure of merit of the values given at construction?
+    subsets = [[f] for f in case["ctor"]] + ([list(case["ctor"])] if len(case["ctor"]) > 1 else [])
+    for fields in subsets:
+        try:
+            old = oracle_fitness(stale_case(case, fields), stale_data(case, data, fields), p, q)
+        except Exception:  # noqa: BLE001 -- e.g. regions of different extent
+            continue
+        if close(got, old) and not close(want, old):
+            mech = f"C11:declared:redeclared-before-run:construction-time-value-used:{what}"
+            extra = f"{extra}; equals the figure of merit with the value(s) of {fields} given at construction " \
+                    f"({ {f: case['ctor'][f] for f in fields} }) instead of the declared one(s)"
+            break
     alarm(rec, mech, f"{what} fitness {got!r} but the recomputation of {case['fn']} over {case['ntar']} target(s) gives "
                      f"{want!r} (p={p}, q={q}) {extra}", case, index)
 
 
 def signature(case: dict) -> list:
     return [case[k] for k in ("kind", "rows", "cols", "trows", "tcols", "multi", "times", "ntar", "ks", "cls", "rfr",
-                              "tfr", "fn", "free", "wk", "result_type", "fmt", "inherited", "noise")] + \
+                              "tfr", "fn", "free", "wk", "result_type", "fmt", "inherited", "noise", "tdtypes")] + \
            [[(p["name"], p["log"], p["shared"]) for p in case["layout"]], case["pseed"] is not None,
-            sorted((case.get("algo") or {}).items())]
+            sorted((case.get("algo") or {}).items()), sorted(case["ctor"])]
 
 
 # =============================================================================== (a) + (e): direct cases
